@@ -341,7 +341,13 @@ def replay_file(path: str) -> int:
     doc = json.load(open(path))
     workdir = os.path.join(VERIF, ".work", f"replay-{os.getpid()}")
     os.makedirs(workdir, exist_ok=True)
-    rp = _run_spec({"module": doc["module"], "harness": doc["harness"], "cfg": doc["cfg"], "mode": "replay", "script": doc["script"], "excluded": doc.get("excluded", [])}, workdir, "replay", 600)
+    if str(doc.get("engine", "")).startswith("B"):
+        rp = _run_spec({"module": doc["module"], "harness": doc["harness"], "cfg": doc["cfg"], "mode": "smt_replay", "model": doc["model"]}, workdir, "replay", 600)
+    elif not doc.get("script") and "all" in str(doc.get("replayed", "")):
+        en = _run_spec({"module": doc["module"], "harness": doc["harness"], "cfg": doc["cfg"], "mode": "enumerate"}, workdir, "replay", 3600)
+        rp = {"ok": (en.get("post") or {}).get("ok"), "clause": (en.get("post") or {}).get("clause"), "detail": (en.get("post") or {}).get("detail"), "runs": en.get("runs")}
+    else:
+        rp = _run_spec({"module": doc["module"], "harness": doc["harness"], "cfg": doc["cfg"], "mode": "replay", "script": doc["script"], "excluded": doc.get("excluded", [])}, workdir, "replay", 600)
     shutil.rmtree(workdir, ignore_errors=True)
     print(json.dumps(rp, indent=1)[:4000])
     if rp.get("ok") is False:
